@@ -24,10 +24,14 @@ var (
 	tokNL     = []string{"\n", "\n", "\n", "\n", "\n\n", "\n\n", "\r\n", "\r", "\n \n", "\n\t\n", "  \n", "\\\n", "\\  \n", "a\\  \n\\", "\\\\\n"}
 	tokBlock  = []string{"#", "##", "###", "######", "#######", "# ", "## ", "-", "- ", "+ ", "* ", "1.", "1. ", "9) ", "123456789. ", "1234567890. ", "0. ", "-\t", "> ", ">", ">>", "> > ", "```", "````", "~~~", "~~~~", "``` go", "~~~ a b", "===", "=", "---", "--", "***", "___", "* * *", "- - -", "_ _ _", "    ", "\t", "  - ", "   1. ", "```\n", "~~~\n"}
 	tokInline = []string{"*", "**", "***", "_", "__", "___", "`", "``", "```", "[", "]", "(", ")", "![", "](", "][", "[]", "]:", "]: ", "<", ">", "\\", "\\\\", "&", ";", ":", "|", "\"", "'", "=", "!", "/", "#", "{", "}", ".", ",", "-", "+", "~", "^", "@", "%", "$", "?", "\n]", "\n](u)", "a\n](u)", "\n*", "*a\n*", "**a\n**", "\n_", "[foo\nbar]", "[foo\nbar][]", "[t][foo\nbar]", "![foo\nbar]", "[foo\nbar]: /u\n", "[foo\n bar]: /u \"t\"\n", "[r]", "[r][]", "[t][r]", "[r]: /u\n", "[R]: /v\n", "\n\n[r]: <u v> 't'\n\n"}
-	tokEsc    = []string{"\\*", "\\_", "\\`", "\\[", "\\]", "\\(", "\\)", "\\<", "\\>", "\\\\", "\\&", "\\#", "\\!", "\\|", "\\~", "\\:", "\\\"", "\\'", "\\a", "\\ ", "\\\t", "\\\n", "\\\r\n"}
-	tokHTML   = []string{"<a>", "</a>", "<a href=\"x\">", "<b>", "<div>", "</div>", "<div", "<pre>", "</pre>", "<script>", "</script>", "<style>", "</style>", "<textarea>", "</textarea>", "<!--", "-->", "<!-- c -->", "<!-->", "<!--->", "<?", "?>", "<?php x ?>", "<!A", "<!DOCTYPE html>", "<![CDATA[", "]]>", "<x-y z='1' w=\"2\" v=3 u>", "<br/>", "<br />", "<img src=x onerror=alert(1)>", "<table>", "<td>", "<p>", "</p>", "<h1>", "<a\n", "<del>", "<1>", "< a>", "<a/ >", "<a b='", "<A HREF=X>", "</ a>", "<a></b>"}
-	tokEnt    = []string{"&amp;", "&lt;", "&gt;", "&quot;", "&copy;", "&nbsp;", "&ouml;", "&Dcaron;", "&ClockwiseContourIntegral;", "&ngE;", "&colon;", "&Tab;", "&NewLine;", "&lpar;", "&nosuch;", "&amp", "&#35;", "&#1234;", "&#0;", "&#065;", "&#992;", "&#x22;", "&#X22;", "&#xD06;", "&#xcab;", "&#x110000;", "&#xD800;", "&#99999999;", "&#9999999;", "&#;", "&#x;", "&#87654321;", "&#abc;", "&x;", "&#60;", "&#62;", "&#34;", "&#38;", "&#39;", "&nvlt;", "&nvgt;", "&LT;", "&GT;", "&AMP;", "&QUOT;", "&bne;", "&fjlig;", "&NotEqualTilde;", "&lt", "&Lt;", "&ThickSpace;", "&NewLine;x", "&Tab;x", "&nbsp", "&#x3C;", "&#x3e;", "&#x26;"}
-	tokURL    = []string{"http://a.b", "https://example.com/p?q=1&r=2", "http://a.b/(c)", "ftp://x.yz", "www.a.bc", "www.x.y.zz/q", "a@b.c", "foo+x@bar.example.com", "mailto:a@b.c", "javascript:alert(1)", "JaVaScRiPt:x", "vbscript:x", "file:///etc/passwd", "data:text/html,x", "data:image/png;base64,AA", "/url", "/uri \"title\"", "<http://a.b>", "<a@b.c>", "<javascript:x>", "<made-up:x>", "<http://a b>", "<>", "(/u 't')", "(<u v>)", "(/u \"t\")", "http://", "://", "x://y",
+	tokEsc    = []string{"\\*", "\\_", "\\`", "\\[", "\\]", "\\(", "\\)", "\\<", "\\>", "\\\\", "\\&", "\\#", "\\!", "\\|", "\\~", "\\:", "\\\"", "\\'", "\\a", "\\ ", "\\\t", "\\\n", "\\\r\n",
+		// a literal backslash (before a letter / digit / multi-byte character), plain bytes, then an inline trigger: the escape must not outlive its byte
+		"\\a*b*", "\\a_b_", "x\\a`c`", "\\1[l](/u)", "\\é*e*", "\\a<http://a.b>", "\\a&amp;", "\\a![i](/u)", "\\ab~~c~~", "\\z\\*q*", "\\語**語**", "\\a\n*b*"}
+	tokHTML = []string{"<a>", "</a>", "<a href=\"x\">", "<b>", "<div>", "</div>", "<div", "<pre>", "</pre>", "<script>", "</script>", "<style>", "</style>", "<textarea>", "</textarea>", "<!--", "-->", "<!-- c -->", "<!-->", "<!--->", "<?", "?>", "<?php x ?>", "<!A", "<!DOCTYPE html>", "<![CDATA[", "]]>", "<x-y z='1' w=\"2\" v=3 u>", "<br/>", "<br />", "<img src=x onerror=alert(1)>", "<table>", "<td>", "<p>", "</p>", "<h1>", "<a\n", "<del>", "<1>", "< a>", "<a/ >", "<a b='", "<A HREF=X>", "</ a>", "<a></b>"}
+	tokEnt  = []string{"&amp;", "&lt;", "&gt;", "&quot;", "&copy;", "&nbsp;", "&ouml;", "&Dcaron;", "&ClockwiseContourIntegral;", "&ngE;", "&colon;", "&Tab;", "&NewLine;", "&lpar;", "&nosuch;", "&amp", "&#35;", "&#1234;", "&#0;", "&#065;", "&#992;", "&#x22;", "&#X22;", "&#xD06;", "&#xcab;", "&#x110000;", "&#xD800;", "&#99999999;", "&#9999999;", "&#;", "&#x;", "&#87654321;", "&#abc;", "&x;", "&#60;", "&#62;", "&#34;", "&#38;", "&#39;", "&nvlt;", "&nvgt;", "&LT;", "&GT;", "&AMP;", "&QUOT;", "&bne;", "&fjlig;", "&NotEqualTilde;", "&lt", "&Lt;", "&ThickSpace;", "&NewLine;x", "&Tab;x", "&nbsp", "&#x3C;", "&#x3e;", "&#x26;"}
+	tokURL  = []string{"http://a.b", "https://example.com/p?q=1&r=2", "http://a.b/(c)", "ftp://x.yz", "www.a.bc", "www.x.y.zz/q", "a@b.c", "foo+x@bar.example.com", "mailto:a@b.c", "javascript:alert(1)", "JaVaScRiPt:x", "vbscript:x", "file:///etc/passwd", "data:text/html,x", "data:image/png;base64,AA", "/url", "/uri \"title\"", "<http://a.b>", "<a@b.c>", "<javascript:x>", "<made-up:x>", "<http://a b>", "<>", "(/u 't')", "(<u v>)", "(/u \"t\")", "http://", "://", "x://y",
+		// a scheme followed by punctuation only (a permissive Linkify pattern matches it; trimming leaves the bare scheme)
+		"ssh://...", "(ssh://...)", "use ssh://... here", "*ssh://..*", "x-app://!!", "http://.", "ftp://?!", " tel://,", "(http://.)", "~~ssh://...~~",
 		// the same media type in its allowed (;) and its dangerous (,) spelling, in either order
 		"data:image/png,x", "data:image/gif;base64,R0lG", "data:image/svg+xml,<svg>", "![a](data:image/png;base64,AAAA) ![b](data:image/png,x)", "![a](data:image/gif,x) ![b](data:image/gif;base64,R0lG)", "[a](data:image/webp,x) [b](data:image/webp;base64,UklG)", "<data:image/jpeg,x> ![j](data:image/jpeg;q)", "[a](JAVASCRIPT:x) [b](javascript:y) [c](https://x)"}
 	tokAttr = []string{"{#id}", "{.cls}", "{#i .c k=v}", "{k=\"v\"}", "{data-x=y}", "{onclick=\"x\"}", "{#a #b}", "{.a.b}", "{k='v'}", "{k=v w}", "{", "}", " {#x}", "{#é}", "{k=\"a&b<c>\"}", "{k=\"a\\\"b\"}", "{style=\"x\"}", "{a=1 a=2}", "{title=\"<\"}", "{#}", "{.}", "{=}", "{k=}", "{k=\"", "{#id .c}\n", "{class=a .b}", "{class=a class=b}", "{.a class=b}", "{class=a .b .c}", "{id=1}", "{id=1.5}", "{id=-2}", "{id=true}", "{id=null}", "{class=1 .x}", "{k=1e3}", "{id=[1]}", "{id={a=b}}", "{id=\"x\" id=2}", "# h {class=foo .bar}\n", "# h {id=1}\n", "h {id=0}\n===\n", "{k=false .c}", "{class=\"a\" class=b}",
@@ -42,7 +46,7 @@ var (
 	tokNear = []string{"WWW.example.com", "Www.a.bc", "wWw.x.org/p", "ww.example.com", "wwww", "HTTP", "Https", "ftp.example.com", "example.com/path", "a.b.co",
 		"mailto", "user\uff20host.com", "http\u2236//a.b", "\uff5e\uff5ea\uff5e\uff5e", "\u02dc\u02dca", "|a|b|\n|=|=|\n", "|a|\n|\u2014|\n", "|a|\n|_|\n", "- \uff3b \uff3d x", "- (x) a",
 		"[\\^1]", "[ ^1]", "^1", "[\\^1]: n\n", "a\n\uff1a b\n", "a\n; b\n", "a\n  ~ b\n", "`` q \u00b4\u00b4", "(tm)", "(r)", "1/2", "+-", "\u2019", "\u2026", "\u00aba\u00bb",
-		"\u2018a\u2019", "\u201ca\u201d", "a\\\tb", "WWW.A.BC\n", " Www.e.fg ", "(WWW.h.ij)", "*WWW.k.lm*", "HTTP\uff1a//n.op"}
+		"\u2018a\u2019", "\u201ca\u201d", "a\\\tb", "a\\\thttp://example.com/", "\\\twww.a.bc", "x\\\ta@b.cd", "\\\tWWW.q.rs", "\\\t~~s~~", "\\\thttps://t.uv *e*", "WWW.A.BC\n", " Www.e.fg ", "(WWW.h.ij)", "*WWW.k.lm*", "HTTP\uff1a//n.op"}
 	tokHost = []string{"\x00", "\x00\x00", "\x80", "\xbf", "\x80\x80", "\xc3", "\xe6\x97", "\xf0\x9f\x98", "\xc0\xaf", "\xff", "\xfe", "\xef\xbb\xbf", "\u200b", "\u00a0", "\u2003", "\u3000", "　", "、", "。", "（", "）", "「", "」", "ｱ", "가", "😀", "\x01", "\x1b", "\x7f", "\x0b", "\x0c", "\u2028", "\u0085", "İ", "ǅ", "ſ", "K", "ς",
 		"日本 \n語", "語\n語", "a\n語", "語\na", "、\n語", "語 \n 語", "語\\\n語", "語  \n語", "語\n*語*", "*語*\n語", "語\n`a`", "ｱ\nｲ", "가\n나", "語\n\x80", "\x80\n語", "語\n", "\n語",
 		// Unicode white space next to a line ending, alone and after an ASCII blank
